@@ -181,6 +181,12 @@ def t_result(led, rid, ctx, res):
         seen.add(key)
         if st2[0] in tbl[rt[2]]:
             led.ok(rid, key, None, "entry %s" % short(b))
+        elif adt == "Result" and rt[2] == "Ok" and tuple(b) == tuple(st2):
+            # entered in an inconsistent state, left in the same state with Ok: a posting function that had
+            # nothing to post (an empty conjunction).  That everything it *does* post refuses in this state
+            # is T10 / T11; here only a change of state under Ok would be wrong.
+            seen.discard(key)
+            continue
         else:
             led.bad(rid, key, next((f.span for l, f, _ in apis if l == label), None),
                     "`%s` returns %s::%s while leaving the solver in state %s (allowed: %s); "
